@@ -345,12 +345,8 @@ func (s *Service) accountPathsToVerificationRegexes(paths []string) []*regexp.Re
 			parts = append(parts, ".*")
 		}
 		parts[1] = strings.TrimPrefix(parts[1], "^")
-		var specifier string
-		if utils.HasEndAnchor(parts[1]) {
-			specifier = fmt.Sprintf("^%s/%s", parts[0], parts[1])
-		} else {
-			specifier = fmt.Sprintf("^%s/%s$", parts[0], parts[1])
-		}
+		parts[1] = utils.TrimEndAnchor(parts[1])
+		specifier := fmt.Sprintf("^%s/%s$", utils.GroupAlternatives(parts[0]), utils.GroupAlternatives(parts[1]))
 		regex, err := regexp.Compile(specifier)
 		if err != nil {
 			log.Warn().Str("specifier", specifier).Err(err).Msg("Invalid path regex")
